@@ -112,6 +112,9 @@ def run(ctx):
                 npending = len(arrivals)
                 if passes and sid not in ids_listed and r["duration"] - t_arr > 0.35 + 0.11 * len(r["labels"]) ** 0.5 + hd * (1 + npending) + sum(dt for _, dt in stalls):
                     prob = "responding spa %r (reply at the socket %.2f s after the start, discovery returned after %.2f s) is not listed" % (sid, t_arr, r["duration"])
+        if prob is None and r["broadcasts"] < int(r["duration"] - 0.25 - sum(dt for _, dt in stalls)):
+            # the hello goes out once per second for as long as discovery runs: it is what gets an answer out of a spa whose earlier reply was lost
+            prob = "broadcast sent only %d times during a discovery of %.2f s (once per second expected, whatever has been listed)" % (r["broadcasts"], r["duration"])
         if prob is None and r["events"].count("LOCATING_DISCOVERED_SPA") != len(ids_listed):
             prob = "announced spas (%d LOCATING_DISCOVERED_SPA events) and listed spas (%d) differ" % (r["events"].count("LOCATING_DISCOVERED_SPA"), len(ids_listed))
         if prob:
